@@ -1128,7 +1128,7 @@ theorem rd_body (tm : List (Nat × Str)) (f : Fields) (ks : List Tree) (hne : ks
       (∀ rest, bracketLex (f.label ++ (((sortBy leftmost ks).map rdTxt).flatten ++ ')' :: rest)) = pre ++ bracketLex (')' :: rest)) ∧
       ∀ (o : InOpts) (st : BrState) (q : List QNode) (L : Nat), o.gfSplit = false →
         (st.state = 1 ∨ st.state = 9) → st.queue = q ++ [({} : QNode)] → st.level = L + 1 →
-        ∃ ds ds', rdSteps o st pre = some { st with state := 5, queue := q ++ [{ f := rdF f, kids := ds, num := none }], termCnt := st.termCnt + (node f ks).leafNums.length } ∧
+        ∃ ds ds', rdSteps o st pre = some { st with state := 5, queue := q ++ [{ f := rdF f, kids := ds, num := none, raw := f.label }], termCnt := st.termCnt + (node f ks).leafNums.length } ∧
           discoApplyL false tm ds = some ds' ∧
           sortKids (node (rdF f) ds') = sortKids (setWords (rdW tm) (asReadBrackets (node f ks))) := by
   have hmem : ∀ k, k ∈ sortBy leftmost ks ↔ k ∈ ks := fun k => mem_sortBy leftmost ks k
@@ -1156,13 +1156,13 @@ theorem rd_body (tm : List (Nat × Str)) (f : Fields) (ks : List Tree) (hne : ks
     obtain ⟨state, level, queue, termCnt, cnt0, out⟩ := st
     simp only at hs hq hlv
     subst hq hlv
-    obtain ⟨ds, ds', h2, hds, hsds⟩ := hrun o ⟨2, L + 1, q ++ [{ f := rdF f, kids := [], num := none }], termCnt, cnt0, out⟩ q
-      { f := rdF f, kids := [], num := none } L hg (Or.inl rfl) rfl rfl
+    obtain ⟨ds, ds', h2, hds, hsds⟩ := hrun o ⟨2, L + 1, q ++ [{ f := rdF f, kids := [], num := none, raw := f.label }], termCnt, cnt0, out⟩ q
+      { f := rdF f, kids := [], num := none, raw := f.label } L hg (Or.inl rfl) rfl rfl
     refine ⟨ds, ds', ?_, hds, rd_sort_node tm f ks ds' hsds⟩
     rw [rd_steps_cons o _ _ _ _ (step_token_19 o _ _ hs hg)]
     simp only [updLast_snoc]
-    rw [show (BrState.mk 2 (L + 1) (q ++ [{ ({} : QNode) with f := { ({} : QNode).f with label := f.label, edge := some DEFAULT_EDGE, morph := some DEFAULT_MORPH } }]) termCnt cnt0 out) =
-      ⟨2, L + 1, q ++ [{ f := rdF f, kids := [], num := none }], termCnt, cnt0, out⟩ from rfl, h2]
+    rw [show (BrState.mk 2 (L + 1) (q ++ [{ ({} : QNode) with f := { ({} : QNode).f with label := f.label, edge := some DEFAULT_EDGE, morph := some DEFAULT_MORPH }, raw := f.label }]) termCnt cnt0 out) =
+      ⟨2, L + 1, q ++ [{ f := rdF f, kids := [], num := none, raw := f.label }], termCnt, cnt0, out⟩ from rfl, h2]
     simp [hSne, hperm.length_eq]
 
 theorem rd_node (tm : List (Nat × Str)) (f : Fields) (ks : List Tree) (hne : ks ≠ []) (ih : ∀ k ∈ ks, RdOK tm k)
@@ -1461,7 +1461,7 @@ theorem rd_line (o : InOpts) (ho : RdOpts o) (t : Tree) (hwf : WF t = true) (hok
   -- up to the closing parenthesis of the tree
   obtain ⟨ds, ds', h2, hds, hsds⟩ := hrun o ⟨9, 1, [] ++ [({} : QNode)], 1, cnt0, out⟩ [] 0 ho.gf (Or.inr rfl) rfl rfl
   have hsteps : rdSteps o ⟨0, 0, [], 1, cnt0, out⟩ ((['('], .lrb) :: pre) =
-      some ⟨5, 1, [{ f := rdF f, kids := ds, num := none }], 1 + (node f ks).leafNums.length, cnt0, out⟩ := by
+      some ⟨5, 1, [{ f := rdF f, kids := ds, num := none, raw := f.label }], 1 + (node f ks).leafNums.length, cnt0, out⟩ := by
     rw [rd_steps_cons o _ _ _ _ (step_lrb_0 o _ _ rfl)]
     exact h2
   obtain ⟨fuel1, hf1, hloop⟩ := rd_loop_steps o _ _ _
